@@ -382,3 +382,43 @@ func verifC13RefDecode() {
 	vAssert(len(params) <= 6, "no other parameters")
 	vReach("refdecoded")
 }
+
+// verifC13Chain: a name reached through a long chain of backward compression
+// pointers (k hops, each fragment one symbolic label plus a pointer to the
+// previous fragment, all stored in the opaque RDATA of a preceding record)
+// decodes to all k+1 labels: legal compression depth is not limited.
+func verifC13Chain() {
+	k := 14
+	if vTier() > 0 {
+		k = 40
+	}
+	hdr := []byte{0, 1, 0x81, 0x80, 0, 0, 0, 2, 0, 0, 0, 0}
+	base := 12 + 11 // first RR: root owner (1) + type/class/ttl/rdlength (10)
+	var rd []byte
+	var labels []byte
+	offs := make([]int, k)
+	for i := 0; i < k; i++ {
+		c := vByte()
+		vAssume(c != '.')
+		labels = append(labels, c)
+		offs[i] = base + len(rd)
+		if i == 0 {
+			rd = append(rd, 1, c, 0)
+		} else {
+			rd = append(rd, 1, c, 0xc0|byte(offs[i-1]>>8), byte(offs[i-1]))
+		}
+	}
+	rr1 := append([]byte{0, 0x03, 0xe7, 0, 1, 0, 0, 0, 0, byte(len(rd) >> 8), byte(len(rd))}, rd...)
+	last := vByte()
+	vAssume(last != '.')
+	rr2 := []byte{1, last, 0xc0 | byte(offs[k-1]>>8), byte(offs[k-1]), 0, 1, 0, 1, 0, 0, 0, 9, 0, 4, 10, 0, 0, 1}
+	msg := append(append(hdr, rr1...), rr2...)
+	d, err := DecodeMessage(msg)
+	vAssert(err == nil && len(d.Answer) == 2, "a response with a deep (legal) compression chain decodes")
+	want := []byte{last}
+	for i := k - 1; i >= 0; i-- {
+		want = append(want, '.', labels[i])
+	}
+	vAssert(d.Answer[1].Name == string(want), "all labels of the chained name are returned in order")
+	vReach("chain")
+}
